@@ -250,7 +250,10 @@ public:
 	if (!x || !y) {
 	  return ghost_linear_constraint_t::get_true();
 	}
-        number_t offset = ref_cst.offset();
+        // p == q + k relates the addresses and the offsets of p and q by k,
+        // but both point into the same object: the sizes are equal.
+        number_t offset = (kind == ghost_variable_kind::SIZE ? number_t(0)
+                                                             : ref_cst.offset());
         if (ref_cst.is_equality()) {
           return ghost_linear_constraint_t(*x == *y + offset);
         } else if (ref_cst.is_disequality()) {
@@ -797,7 +800,10 @@ public:
 	if (!x || !y) {
 	  return ghost_linear_constraint_t::get_true();
 	}	
-        number_t offset = ref_cst.offset();
+        // p == q + k relates the addresses and the offsets of p and q by k,
+        // but both point into the same object: the sizes are equal.
+        number_t offset = (kind == ghost_variable_kind::SIZE ? number_t(0)
+                                                             : ref_cst.offset());
         if (ref_cst.is_equality()) {
           return ghost_linear_constraint_t(*x == *y + offset);
         } else if (ref_cst.is_disequality()) {
